@@ -274,7 +274,8 @@ def set_default_doc(param, emit_default_doc=True):
                     else "{doc}.".format(doc=_param["doc"])
                 ),
                 default=quote(_param["default"])
-                if needs_quoting(_param.get("typ"))
+                if isinstance(_param["default"], str)
+                and needs_quoting(_param.get("typ"))
                 else _param["default"],
             )
 
